@@ -346,6 +346,40 @@ fn counted_histories(rep: &mut Report) {
     }
 }
 
+/// Two (or three) pages alive at once and written to in turn — same height and different widths, same width and
+/// different heights, same size: what one page does must not depend on which page was touched last.
+fn interleaved_pages(rng: &mut Rng, rep: &mut Report) {
+    for dims in [[(112u32, 16u32), (48, 16), (48, 7)], [(30, 7), (90, 7), (30, 10)], [(5, 9), (5, 9), (9, 5)], [(16, 16), (17, 16), (16, 17)]] {
+        let backing: Vec<Vec<u8>> = dims.iter().map(|(w, h)| rng.bytes(refs::padded_len(*w, *h))).collect();
+        let mut mons: Vec<Mon<'_>> = vec![];
+        for (i, (w, h)) in dims.iter().enumerate() {
+            let m = if i == 1 { Mon::borrowed_or_skip(*w, *h, &backing[i], rep).ok().flatten() } else { Mon::fresh_or_skip(i as u8, *w, *h, rep) };
+            let Some(m) = m else { return };
+            mons.push(m);
+        }
+        rep.case(Some(rng.next()));
+        for step in 0..600usize {
+            let k = if step % 2 == 0 { step / 2 % 3 } else { rng.usize(3) };
+            let (w, h) = dims[k];
+            let op = match rng.below(12) {
+                0 => Op::Fill(true),
+                1 => Op::Fill(false),
+                2 => Op::Get(rng.below(u64::from(w)) as u32, rng.below(u64::from(h)) as u32),
+                3 => Op::Set(w, rng.below(u64::from(h)) as u32, true),
+                _ => Op::Set(rng.below(u64::from(w)) as u32, rng.below(u64::from(h)) as u32, rng.bool()),
+            };
+            mons[k].apply(&op, rep);
+            // the pages that were NOT touched are what they were
+            for j in 0..3 {
+                if j != k {
+                    mons[j].compare(rep, false);
+                }
+            }
+        }
+        rep.count("interleaved_page_groups");
+    }
+}
+
 fn random_sequence(rng: &mut Rng, rep: &mut Report, max_ops: usize) {
     let n_ops = 1 + rng.usize(max_ops);
     sequence_of_length(rng, rep, n_ops)
@@ -436,12 +470,18 @@ pub fn run(ctx: &Ctx) -> Outcome {
     for t in refs::TYPES.iter() {
         sizes.push((t.w, t.h));
     }
+    // tall and wide pages: rows beyond 255 / 256 / 264, columns beyond 255 / 256 (an index kept in 8 bits aliases here)
+    let n_tall = {
+        let before = sizes.len();
+        sizes.extend([(2u32, 257u32), (1, 264), (3, 300), (257, 3), (300, 2), (2, 2041)]);
+        sizes.len() - before
+    };
     let ns = sizes.len();
     let report = run_sharded(ctx, ns + seq_shards, |shard, rep| {
         if shard < ns {
             let (w, h) = sizes[shard];
             exhaustive_size((shard * 7) as u8, w, h, rep);
-            rep.count(if shard < box_n { "box_sizes_done" } else { "real_sizes_done" });
+            rep.count(if shard < box_n { "box_sizes_done" } else if shard < box_n + 11 { "real_sizes_done" } else { "tall_and_wide_sizes_done" });
         } else {
             let mut rng = ctx.rng("seq", (shard - ns) as u64);
             if shard - ns < 4 {
@@ -449,6 +489,8 @@ pub fn run(ctx: &Ctx) -> Outcome {
                 rep.count("long_sequences");
             } else if shard - ns == 4 {
                 counted_histories(rep);
+            } else if shard - ns == 5 {
+                interleaved_pages(&mut rng, rep);
             }
             for _ in 0..n_seq / seq_shards as u64 {
                 random_sequence(&mut rng, rep, 200);
@@ -458,8 +500,10 @@ pub fn run(ctx: &Ctx) -> Outcome {
     let floors = vec![
         floor("every page asked for could be built (otherwise the bounds rules were not observed on those sizes)", report.get("pages_that_could_not_be_built") == 0, report.get("pages_that_could_not_be_built")),
         floor("every size of the box explored", report.get("box_sizes_done") == box_n as u64, report.get("box_sizes_done")),
+        floor("tall and wide pages explored pixel by pixel", report.get("tall_and_wide_sizes_done") == n_tall as u64, report.get("tall_and_wide_sizes_done")),
         floor("all 11 real sizes explored", report.get("real_sizes_done") == 11, report.get("real_sizes_done")),
         floor("four sequences of 100 000 operations on one page object", report.get("long_sequences") == 4, report.get("long_sequences")),
+        floor("pages alive at once and written to in turn (equal heights, equal widths, equal sizes)", report.get("interleaved_page_groups") == 4, report.get("interleaved_page_groups")),
         floor("fill / clear after exactly 255..131072 writes to one page", report.get("counted_histories") == 30, report.get("counted_histories")),
         floor("every op kind exercised", ["op/set", "op/clear", "op/fill", "op/get", "op/set_oob", "op/get_oob"].iter().all(|k| report.get(k) > 0), "set/clear/fill/get/set_oob/get_oob"),
         floor("out-of-bounds panics observed", report.get("oob_panics_observed") > report.get("nondegenerate_sizes"), report.get("oob_panics_observed")),
